@@ -92,3 +92,86 @@ pub fn run<S: Src>(h: &str, s: &mut S) -> Outcome {
         }
     }
 }
+
+// ---- populated interface table (solver side: smt/c03_table.py) ----
+struct Named(&'static str);
+impl varlink::Interface for Named {
+    fn get_description(&self) -> &'static str {
+        "interface x.y\nmethod M() -> ()\n"
+    }
+    fn get_name(&self) -> &'static str {
+        self.0
+    }
+    fn call_upgraded(&self, _c: &mut varlink::Call, _b: &mut dyn std::io::BufRead) -> varlink::Result<Vec<u8>> {
+        Ok(Vec::new())
+    }
+    fn call(&self, call: &mut varlink::Call) -> varlink::Result<()> {
+        varlink::CallTrait::reply_struct(call, varlink::Reply::parameters(Some(json!({ "who": self.0 }))))
+    }
+}
+
+const POOL: [&str; 6] = ["x.a", "x.b", "x.c", "x.d", "x.e", "x.f"];
+
+/// vals = [0, n, name index of each registered interface]  |  [1, which (0 service, 1 first, 2 second, 3 unregistered)]
+pub fn table(vals: &[u8]) -> Outcome {
+    let g = |i: usize| *vals.get(i).unwrap_or(&0);
+    if g(0) == 0 {
+        let n = g(1) as usize;
+        let names: Vec<&'static str> = (0..n).map(|i| POOL[(g(2 + i) as usize) % POOL.len()]).collect();
+        let ifaces: Vec<Box<dyn varlink::Interface + Send + Sync>> = names.iter().map(|n| Box::new(Named(n)) as Box<dyn varlink::Interface + Send + Sync>).collect();
+        let svc = VarlinkService::new("v", "p", "1", "u", ifaces);
+        let req = r#"{"method":"org.varlink.service.GetInfo"}"#;
+        let (ok, rep) = ask(&svc, req);
+        let list: Vec<String> = rep
+            .get(0)
+            .and_then(|r| r.get("parameters"))
+            .and_then(|p| p.get("interfaces"))
+            .and_then(|l| l.as_array())
+            .map(|l| l.iter().filter_map(|x| x.as_str().map(|s| s.to_string())).collect())
+            .unwrap_or_default();
+        let mut bad = None;
+        if !ok || list.first().map(|s| s.as_str()) != Some("org.varlink.service") {
+            bad = Some(format!("GetInfo lists {:?}", list));
+        }
+        let mut distinct: Vec<&str> = names.clone();
+        distinct.sort();
+        distinct.dedup();
+        for d in &distinct {
+            if list.iter().filter(|x| x.as_str() == *d).count() != 1 {
+                bad = Some(format!("registered {:?}, GetInfo lists {:?}", names, list));
+            }
+        }
+        if list.len() != distinct.len() + 1 {
+            bad = Some(format!("registered {:?}, GetInfo lists {:?}", names, list));
+        }
+        // every registered name is routed to an interface of that name
+        for d in &distinct {
+            let (_, r) = ask(&svc, &format!("{{\"method\":\"{}.M\"}}", d));
+            let who = r.get(0).and_then(|r| r.get("parameters")).and_then(|p| p.get("who")).and_then(|w| w.as_str()).map(|s| s.to_string());
+            if who.as_deref() != Some(*d) {
+                bad = Some(format!("call to {}.M answered by {:?}", d, who));
+            }
+        }
+        return verdict(bad, "interface-table", format!("VarlinkService::new(.., {:?}) then GetInfo", names));
+    }
+    let svc = VarlinkService::new("v", "p", "1", "u", vec![Box::new(Named("x.a")), Box::new(Named("x.b"))]);
+    let target = match g(1) {
+        0 => "org.varlink.service",
+        1 => "x.a",
+        2 => "x.b",
+        _ => "x.z",
+    };
+    let req = if g(1) == 0 { r#"{"method":"org.varlink.service.GetInfo"}"#.to_string() } else { format!("{{\"method\":\"{}.M\"}}", target) };
+    let (_, r) = ask(&svc, &req);
+    let r0 = r.get(0).cloned().unwrap_or(Value::Null);
+    let who = r0.get("parameters").and_then(|p| p.get("who")).and_then(|w| w.as_str());
+    let bad = match g(1) {
+        0 => if r0.get("parameters").and_then(|p| p.get("vendor")).is_some() { None } else { Some(format!("GetInfo answered {}", r0)) },
+        1 | 2 => if who == Some(target) { None } else { Some(format!("{} answered {}", req, r0)) },
+        _ => {
+            let want = json!({"error": "org.varlink.service.InterfaceNotFound", "parameters": {"interface": "x.z"}});
+            if r0 == want { None } else { Some(format!("{} answered {}", req, r0)) }
+        }
+    };
+    verdict(bad, "routing", format!("table {{x.a, x.b}}: {}", req))
+}
